@@ -107,7 +107,9 @@ impl Acc {
         };
         if replace {
             let (desc, case) = desc();
-            self.violations.insert(sig.clone(), Violation { sig, desc, case, size });
+            let v = Violation { sig: sig.clone(), desc, case, size };
+            journal_append(&v);
+            self.violations.insert(sig, v);
         }
     }
     pub fn merge(&mut self, o: Acc) {
@@ -181,6 +183,103 @@ impl Budget {
     }
 }
 
+/// Violations are journalled the moment they are found (one JSON line each, O_APPEND): when a later subject call
+/// never returns (or kills the process) the supervisor still has them, re-executes each one and reports those that
+/// reproduce (`journal_report`), instead of ending without a verdict.
+pub fn journal_append(v: &Violation) {
+    let Some(path) = std::env::var_os("PGMC_JOURNAL") else { return };
+    let line = json!({"sig": v.sig, "size": v.size, "desc": v.desc, "case": v.case}).to_string();
+    if line.len() > (8 << 20) {
+        return;
+    }
+    use std::io::Write;
+    if let Ok(mut f) = std::fs::OpenOptions::new().create(true).append(true).open(path) {
+        let _ = f.write_all((line + "\n").as_bytes());
+    }
+}
+
+/// a work item has not returned long after the cap: report what was journalled (re-executed in a fresh process)
+pub fn stuck_recover() -> ! {
+    let journal = std::env::var("PGMC_JOURNAL").unwrap_or_default();
+    let prop = std::env::var("PGMC_PROP").unwrap_or_default();
+    let have = !journal.is_empty() && !prop.is_empty() && std::fs::metadata(&journal).map(|m| m.len() > 0).unwrap_or(false);
+    if !have {
+        eprintln!("MACHINERY-ERROR: a work item did not return within 45 s after the wall-clock cap (a subject call that does not terminate?) and no violation had been recorded before; no verdict");
+        std::process::exit(2);
+    }
+    eprintln!("note: a work item did not return within 45 s after the wall-clock cap (a subject call that does not terminate?)");
+    let exe = std::env::current_exe().expect("current_exe");
+    let st = std::process::Command::new(exe).args(["journal", &prop, &journal]).env("PGMC_CHILD", "1").env_remove("PGMC_JOURNAL").status();
+    let _ = std::fs::remove_file(&journal);
+    std::process::exit(st.ok().and_then(|s| s.code()).unwrap_or(2));
+}
+
+/// Supervisor fallback: the checking process did not finish (hung or killed). Re-execute the journalled violations,
+/// smallest first, and report the ones that reproduce. Exit 1 if any unlisted violation reproduced, else 2.
+pub fn journal_report(prop: &str, path: &str, recheck: &dyn Fn(&Value) -> Vec<String>) -> i32 {
+    let txt = std::fs::read_to_string(path).unwrap_or_default();
+    let mut best: BTreeMap<String, Violation> = BTreeMap::new();
+    for l in txt.lines() {
+        let Ok(v) = serde_json::from_str::<Value>(l) else { continue };
+        let sig = v["sig"].as_str().unwrap_or("").to_string();
+        let size = v["size"].as_u64().unwrap_or(0) as usize;
+        if sig.is_empty() {
+            continue;
+        }
+        let cand = Violation { sig: sig.clone(), desc: v["desc"].as_str().unwrap_or("").to_string(), case: v["case"].clone(), size };
+        match best.get(&sig) {
+            Some(o) if o.size <= size => {}
+            _ => {
+                best.insert(sig, cand);
+            }
+        }
+    }
+    if best.is_empty() {
+        eprintln!("MACHINERY-ERROR: the checker did not finish and had found no violation before; no verdict");
+        return 2;
+    }
+    let reported = std::sync::Arc::new(AtomicUsize::new(0));
+    {
+        // own deadline: a journalled case may itself be the one that never returns
+        let reported = reported.clone();
+        std::thread::spawn(move || {
+            std::thread::sleep(std::time::Duration::from_secs(300));
+            eprintln!("note: re-execution of the journalled violations stopped after 300 s");
+            std::process::exit(if reported.load(Ordering::SeqCst) > 0 { 1 } else { 2 });
+        });
+    }
+    let known = Known::load();
+    let dir = format!("{}/replays/{}", verif_dir(), prop);
+    let _ = std::fs::remove_dir_all(&dir);
+    let mut vs: Vec<Violation> = best.into_values().collect();
+    vs.sort_by_key(|v| v.size);
+    println!("note: the {} check did not run to completion (a subject call that does not return, or the process was killed); re-executing the {} violation(s) it had recorded before", prop, vs.len());
+    for v in &vs {
+        let again = recheck(&v.case);
+        if !again.iter().any(|s| s == &v.sig) {
+            eprintln!("note: journalled violation sig={} did not reproduce on re-execution (got {:?})", v.sig, again);
+            continue;
+        }
+        if let Some(d) = known.lookup(prop, &v.sig) {
+            println!("KNOWN-FINDING: property={} sig={} {}", prop, v.sig, d);
+            continue;
+        }
+        let _ = std::fs::create_dir_all(&dir);
+        let path = format!("{}/{}.json", dir, sanitize(&v.sig));
+        let body = json!({"property": prop, "sig": v.sig, "description": v.desc, "case": v.case, "replay": format!("bin/check {} --replay {}", prop, path)});
+        std::fs::write(&path, serde_json::to_string_pretty(&body).unwrap()).expect("write replay");
+        println!("VIOLATION property={} replay={}", prop, path);
+        println!("  sig={}  {}", v.sig, v.desc);
+        reported.fetch_add(1, Ordering::SeqCst);
+    }
+    if reported.load(Ordering::SeqCst) > 0 {
+        1
+    } else {
+        eprintln!("MACHINERY-ERROR: the checker did not finish and none of its journalled violations is reportable; no verdict");
+        2
+    }
+}
+
 pub fn nthreads() -> usize {
     std::env::var("PGMC_THREADS").ok().and_then(|s| s.parse().ok()).unwrap_or_else(|| {
         std::thread::available_parallelism().map(|n| n.get()).unwrap_or(4).min(16)
@@ -197,7 +296,19 @@ pub fn par_run<W: Sync>(items: &[W], budget: &Budget, f: impl Fn(&W, &mut Acc, &
     let skipped = AtomicUsize::new(0);
     let threads = nthreads().min(n.max(1));
     let mut total = Acc::new();
+    let finished = AtomicBool::new(false);
     std::thread::scope(|s| {
+        // stuck-worker monitor: a subject call that has not returned 45 s after the wall-clock cap will not return
+        // (every engine polls the budget); hand over to the journal recovery instead of waiting to be killed
+        s.spawn(|| loop {
+            std::thread::sleep(Duration::from_millis(250));
+            if finished.load(Ordering::SeqCst) {
+                break;
+            }
+            if budget.start.elapsed() > budget.cap + Duration::from_secs(45) {
+                stuck_recover();
+            }
+        });
         let mut hs = Vec::new();
         for _ in 0..threads {
             hs.push(
@@ -230,6 +341,7 @@ pub fn par_run<W: Sync>(items: &[W], budget: &Budget, f: impl Fn(&W, &mut Acc, &
                 }
             }
         }
+        finished.store(true, Ordering::SeqCst);
     });
     let sk = skipped.load(Ordering::Relaxed);
     if sk > 0 {
